@@ -1530,6 +1530,15 @@ get_pure_virtual_funcs(VFunctions &funcs) const {
   for (vfi = vfuncs.begin(); vfi != vfuncs.end(); ++vfi) {
     CPPInstance *inst = (*vfi);
     if ((inst->_storage_class & CPPInstance::SC_pure_virtual) != 0) {
+      CPPFunctionType *ftype = inst->_type->as_function_type();
+      if (ftype != nullptr &&
+          (ftype->_flags & CPPFunctionType::F_destructor) != 0 &&
+          inst != get_destructor()) {
+        // A pure virtual destructor inherited from a base class is always
+        // overridden by the destructor of this class, even if that one is
+        // implicitly declared, so it does not make this class abstract.
+        continue;
+      }
       funcs.push_back(inst);
     }
   }
